@@ -18,8 +18,10 @@ F_PANIC = "D_C26_PanicSwallowedAsEmptyOK"
 F_FROM = "D_C26_NegativeFromPanicsAsEmptyOK"
 F_DEAD = "D_C26_UnrecoveredPanicKillsServer"
 F_CREATES = "D_C26_ErrorCreatesSwamp"
+F_ZERO = "D_C26_TruncatedToZeroLostOnReload"
 
 BUILTIN_PAIRS = [dict(rpc="GetLike", shape="name_one", kind="panic_ok"), dict(rpc="BulkLike", shape="name_two", kind="dead"),
+                 dict(rpc="RegisterLike", shape="max_ints", kind="dead"),
                  dict(rpc="NoName", shape="valid", kind="creates")]
 
 
@@ -56,7 +58,7 @@ def judge(case, res, known):
     if not res.get("stopok", True):
         out.append((None, "%s: graceful stop of the server did not complete afterwards" % tag))
     if not res.get("reloadok", True) and not case["shape"].startswith("island_"):
-        out.append((None, "%s: a fresh process does not read back the data the server reported before it stopped" % tag))
+        out.append((F_ZERO if pair in known["zero"] else None, "%s: a fresh process does not read back the data the server reported before it stopped" % tag))
     return out
 
 
@@ -68,7 +70,7 @@ def run(ctx):
         "a swallowed handler panic is observed through the gateway's own log record ('grpc gateway panic'), captured by the child process",
         "IslandID is routing information chosen by the client: a write with another island id lands in that island's folder, so the reload comparison (done with island 1) is not judged for the island_* shapes",
         "a four-part name is accepted as its first three parts (name.Load) - treated as an answer, not judged",
-        "a request that does not return within 30 s, or a stop that does not return within 90 s, is reported as inconclusive, never as a violation",
+        "watchdogs: a request that does not return within 60 s and a graceful stop that does not return within 90 s count as 'the server cannot answer / cannot stop' (requests normally take milliseconds)",
     ]
     binary = ctx.go_build("malformed")
     rpcs = os.path.join(ctx.work, "rpcs.json")
@@ -77,7 +79,9 @@ def run(ctx):
     ctx.extra["rpcs"] = len(table)
 
     fnd = ctx.open_findings()
-    known = dict(panic_name=set(), panic_from=set(), dead=set(), creates=set())
+    known = dict(panic_name=set(), panic_from=set(), dead=set(), creates=set(), zero=set())
+    for p in fnd.get(F_ZERO, {}).get("pairs", []):
+        known["zero"].add(tuple(p))
     pairs = []
     for fid, key, kind in ((F_PANIC, "panic_name", "panic_ok"), (F_FROM, "panic_from", "panic_ok"), (F_DEAD, "dead", "dead")):
         for p in fnd.get(fid, {}).get("pairs", []):
@@ -138,9 +142,11 @@ def run(ctx):
     elif thorough:
         cases = allcases
     else:
-        hot = {"name_one", "name_two", "name_empty", "neg_from", "empty_req"}
-        must = [c for c in allcases if c["shape"] in hot or c["rpc"] in known["creates"]]
-        rest = [c for c in allcases if not (c["shape"] in hot or c["rpc"] in known["creates"])]
+        hot = {"valid", "name_one", "name_two", "name_empty", "neg_from", "empty_req"}
+        settings_rpcs = {t["name"] for t in table if "pattern" in t["feats"]}     # followed by a probe of a matching swamp
+        pick = lambda c: c["shape"] in hot or c["rpc"] in known["creates"] or c["rpc"] in settings_rpcs
+        must = [c for c in allcases if pick(c)]
+        rest = [c for c in allcases if not pick(c)]
         cases = must + rng.sample(rest, min(len(rest), 260))
         cases.sort(key=lambda c: (c["rpc"], c["shape"], c["pre"]))
     cf = os.path.join(ctx.work, "cases.ndjson")
@@ -197,14 +203,14 @@ def run(ctx):
         if res["outcome"] == "error" and res.get("same"):
             flipped = (c, dict(res, same=False))
             break
-    if flipped is None or not judge(flipped[0], flipped[1], dict(known, creates=set())):
+    if flipped is None or not judge(flipped[0], flipped[1], dict(known, creates=set(), zero=set())):
         raise vlib.Inconclusive("binding self-test failed: a store change on an error was not reported")
     ctx.extra["selftest_side_effect_reported"] = True
 
-    if hangs:
-        c, res = hangs[0]
-        raise vlib.Inconclusive("%d request(s) did not return within the watchdog, e.g. %s/%s/%s: %s" % (
-            len(hangs), c["rpc"], c["shape"], c["pre"], res.get("msg")))
+    for c, res in hangs:
+        # the server took the request and never answered it (60 s watchdog, other requests are answered in milliseconds)
+        ctx.deviation(None, "%s / %s / swamp %s: the request did not return within the watchdog (%s)" % (
+            c["rpc"], c["shape"], c["pre"], res.get("msg")), dict(kind="case", rpc=c["rpc"], shape=c["shape"], pre=c["pre"], result=res))
     ctx.cov["rule"] = ("case = (RPC, malformed shape, pre-state) generated by TLC from the protobuf-derived RPC table, sent through the real "
                        "in-process gRPC server in a child process; non-trivial = any shape other than the valid base request")
     ctx.cov["exhaustive"] = thorough
